@@ -1,6 +1,7 @@
 package checks
 
 import (
+	"encoding/base64"
 	"fmt"
 	"os"
 	"sync/atomic"
@@ -41,4 +42,12 @@ func newScratchWorktreeGit(c *fw.Ctx, prefix string) (*scen.Git, func(), error) 
 		return nil, func() {}, err
 	}
 	return g, func() { os.RemoveAll(dir) }, nil
+}
+
+func decodeB64(s string) string {
+	b, err := base64.StdEncoding.DecodeString(s)
+	if err != nil {
+		return ""
+	}
+	return string(b)
 }
